@@ -5,6 +5,7 @@ import (
 	"encoding/hex"
 	"fmt"
 	"math/big"
+	"sync"
 	"time"
 
 	"mhubsim/ext"
@@ -108,33 +109,33 @@ type World struct {
 	LogOn   bool
 
 	// ledgers shared by oracles
-	GenesisSupply map[string]sdk.Int
-	Liquidity0    map[string]*big.Rat // per denom: custody − supply at genesis, in hub (18-dec) units
-	ColdExec      map[string]*big.Rat
-	LastBlockTxs  []TxResult
-	Mismatch      *ReplicaMismatch
-	beginDigest   string
-	endDigest     string
-	KeysSet       map[string]bool
-	mEvCache      []ext.MEvent
-	mEvCacheH     uint64
+	GenesisSupply   map[string]sdk.Int
+	Liquidity0      map[string]*big.Rat // per denom: custody − supply at genesis, in hub (18-dec) units
+	ColdExec        map[string]*big.Rat
+	LastBlockTxs    []TxResult
+	Mismatch        *ReplicaMismatch
+	beginDigest     string
+	endDigest       string
+	KeysSet         map[string]bool
+	mEvCache        []ext.MEvent
+	mEvCacheH       uint64
 	FaultsStoppedAt int64
-	Settled       bool
-	Tainted       bool
-	SkippedAhead  map[string]bool
-	relayMem      map[string][]relayMemo
-	Forked        bool
-	ForkAt        int
-	ForkHeight    int64
-	Notes         []*Violation
-	pend          map[string][2]uint64
-	preEndBal     map[string]sdk.Int
-	booting       bool
-	ByzVals       map[string]bool
-	lastKeyMsg    map[string]*mhub2types.MsgDelegateKeys
-	keyModels     map[string]*keyModel
-	extKeyByAddr  map[[20]byte]*ecdsa.PrivateKey
-	BlockEvents   []abci.Event // begin+end block events of the current block (replica 0)
+	Settled         bool
+	Tainted         bool
+	SkippedAhead    map[string]bool
+	relayMem        map[string][]relayMemo
+	Forked          bool
+	ForkAt          int
+	ForkHeight      int64
+	Notes           []*Violation
+	pend            map[string][2]uint64
+	preEndBal       map[string]sdk.Int
+	booting         bool
+	ByzVals         map[string]bool
+	lastKeyMsg      map[string]*mhub2types.MsgDelegateKeys
+	keyModels       map[string]*keyModel
+	extKeyByAddr    map[[20]byte]*ecdsa.PrivateKey
+	BlockEvents     []abci.Event // begin+end block events of the current block (replica 0)
 }
 
 type TxResult struct {
@@ -164,7 +165,9 @@ func (w *World) Stopped() bool { return w.Viol != nil || w.Crash != nil || w.Hal
 
 func tokensFromPower(p int64) sdk.Int { return sdk.NewInt(p).Mul(sdk.NewInt(1_000_000)) }
 
-func pow10(n uint64) *big.Int { return new(big.Int).Exp(big.NewInt(10), new(big.Int).SetUint64(n), nil) }
+func pow10(n uint64) *big.Int {
+	return new(big.Int).Exp(big.NewInt(10), new(big.Int).SetUint64(n), nil)
+}
 
 // ToHubUnits converts an external-unit integer into an exact rational number of hub (18-dec) units.
 func ToHubUnits(v *big.Int, dec uint64) *big.Rat {
@@ -206,7 +209,7 @@ func NewWorld(cfg Config, oracles []Oracle, logOn bool) (*World, error) {
 		}
 	}
 	for i := 0; i < cfg.NUsers; i++ {
-		w.Users = append(w.Users, &User{Idx: i, Acc: hub.NewAccount(fmt.Sprintf("user%d", i)), ExtKey: ext.DetEthKey(fmt.Sprintf("user%d", i))})
+		w.Users = append(w.Users, &User{Idx: i, Acc: hub.NewAccount(fmt.Sprintf("user%d", i)), ExtKey: userExtKey(i)})
 	}
 	for _, l := range []string{"foreign0", "foreign1", "newval0", "newval1", "relayer"} {
 		w.Extra[l] = hub.NewAccount(l)
@@ -408,7 +411,6 @@ func mustUint(s string) uint64 {
 	return v
 }
 
-
 func TempAddr() sdk.AccAddress { return mhub2types.TempAddress }
 
 // Note records a violation without stopping the run (several independent findings per run, C15).
@@ -421,4 +423,26 @@ func (w *World) Note(prop, oracle, site, msg string) {
 	}
 	w.Notes = append(w.Notes, v)
 	w.Logf("NOTE %s: %s", v.Signature(), msg)
+}
+
+var userKeyCache sync.Map
+
+// userExtKey: deterministic external keys; odd users get addresses that begin with a zero nibble (user 3: a
+// zero byte), the shape that prefix-stripping and number-like parsing of addresses get wrong.
+func userExtKey(i int) *ecdsa.PrivateKey {
+	if k, ok := userKeyCache.Load(i); ok {
+		return k.(*ecdsa.PrivateKey)
+	}
+	k := ext.DetEthKey(fmt.Sprintf("user%d", i))
+	if i%2 == 1 {
+		for j := 0; ; j++ {
+			k = ext.DetEthKey(fmt.Sprintf("user%d/z%d", i, j))
+			a := ext.KeyAddr(k)
+			if (i%4 == 3 && a[0] == 0) || (i%4 == 1 && a[0]>>4 == 0 && a[0] != 0) {
+				break
+			}
+		}
+	}
+	userKeyCache.Store(i, k)
+	return k
 }
